@@ -293,8 +293,8 @@ def run(ctx):
     if want("trace"):
         cases = []
         if ctx.quick:
-            for _ in range(14):
-                cases.append(rand_case(rng, area_cap=900, nmax=6))
+            for _ in range(45):
+                cases.append(rand_case(rng, area_cap=1200, nmax=8))
             cases.append(rand_case(rng, wh_lo=40, wh_hi=64, nmax=3, force_grid=True, comp=False))
             cases.append(rand_case(rng, wh_lo=4, wh_hi=9, nmax=10, force_grid=True, comp=True))
             cases.append(rand_case(rng, wh_lo=20, wh_hi=40, nmax=10, area_cap=1000, force_grid=True, comp=True))
